@@ -357,6 +357,22 @@ def model_generator_batch(specs):
     return out
 
 
+def c10_corpus_jobs():
+    """networks kept from this property's findings (corpus/c10): compiled first in the D2 part"""
+    import glob
+    import hashlib
+    import compiles
+    jobs = []
+    cdir = os.path.join(vlib.ROOT, "corpus", "c10")
+    for f in sorted(glob.glob(os.path.join(cdir, "*.json"))):
+        d = json.load(open(f))
+        path = os.path.join(cdir, d["tflite"])
+        sha = hashlib.sha256(open(path, "rb").read()).hexdigest()[:16]
+        args = [compiles.CONFIG_INI if a == "@CONFIG_INI@" else a for a in d["args"]]
+        jobs.append({"tflite": path, "sha": sha, "args": args, "capture": True, "family": "corpus", "seed": "c10/" + os.path.basename(f)})
+    return jobs
+
+
 # ======================================================================================== case generators
 def geometry_cases(rng, tier):
     """(H, k, d, s, pad, t, b) along one axis, exhaustive small then random large"""
@@ -954,7 +970,8 @@ def run(tier):
     lap('generator')
     # ---------------------------------------------------------------- 8. D2: stripe groups of every captured stream
     import compiles
-    d2 = compiles.run_all(compiles.corpus_jobs() + compiles.plan(FAMS, 64 if tier == "quick" else 1600, vlib.seed(), tag="d2", capture=True))
+    d2 = compiles.run_all(c10_corpus_jobs() + compiles.corpus_jobs() +
+                          compiles.plan(FAMS, 64 if tier == "quick" else 1600, vlib.seed(), tag="d2", capture=True))
     programs = passes_checked = stripes_checked = rolling_checked = 0
     vcases, vwant = [], []
     outside = collections.Counter()
@@ -1044,6 +1061,13 @@ def run(tier):
                         if mm:
                             kind = ("read_offset_height" if (roff and roff[1] and axis == "h" and (ss_ > 1 or opad[0] + opad[2] > 0)) else
                                     "read_offset_width_strided" if (roff and roff[2] and axis == "w" and ss_ > 1) else "tap_mismatch")
+                            whole = axis == "w" or (cmd.get("is_first_h_stripe") and cmd.get("is_last_h_stripe"))
+                            if kind == "tap_mismatch" and cmd.get("padding_type") == "EXPLICIT" and mm[2] == "OOB" and mm[3] == "P":
+                                oext = (cmd.get("write_shape") or cmd["ofm_shapes"][0])[ai]
+                                if oext > ifm_shape[ai] and not whole:
+                                    kind = "explicit_pad_ofm_taller_than_ifm_last_stripe"
+                                elif whole and kk < ss_:
+                                    kind = "explicit_bottom_padding_lost"
                             finding(dict({"kind": kind}, **({"axis": axis, "stride": ss_} if kind == "tap_mismatch" else {})),
                                     {"net": r.get("net_name"), "seed": r["job"]["seed"], "args": r["job"]["args"], "pass": cmd["pass"],
                                      "ofm_box": ob, "ifm_box": cmd["ifm_box"], "hw_padding": pad, "kernel": kern, "op_padding": opad,
